@@ -19,6 +19,7 @@ import (
 	"time"
 
 	"github.com/lightninglabs/neutrino/internal/verifdetrt"
+	"github.com/lightninglabs/neutrino/internal/verifeng"
 	"github.com/lightninglabs/neutrino/internal/verifldep"
 )
 
@@ -136,6 +137,13 @@ func Run(t *testing.T, body func()) (out Outcome) {
 	defer wd.Stop()
 	select {
 	case o := <-done:
+		if verifeng.IsControl(o.Panic) {
+			// the explorer's own control flow (a replayed prefix that no
+			// longer fits, the end of an execution), raised inside the
+			// bubble: pass it on, it is not a panic of the code under test
+			wd.Stop()
+			panic(o.Panic)
+		}
 		return o
 	case <-wd.C:
 		if os.Getenv("VFX_HANGDUMP") != "" {
